@@ -592,6 +592,16 @@ def check_flat_iterator(ctx, res, alg):
                     if not any("subsequent_sections" in show(d) and ch == 0 for (d, ch, _b) in r.conds):
                         good = False
                         why.append("returns None without the section iterator being exhausted")
+                elif r.ret[0] == "call" and "FromResidual" in r.ret[1] and "Option" in r.ret[1]:
+                    # `?` on subsequent_sections.next(): the None of the exhausted section iterator is passed on
+                    if not any("subsequent_sections" in show(d) for (d, ch, _b) in r.conds):
+                        good = False
+                        why.append("returns None without the section iterator being exhausted")
+                elif r.ret[0] == "agg" and r.ret[3] == "Some":
+                    # Some(item) rebuilt from the item current_section.next() produced
+                    if "current_section" not in s or "::next" not in s:
+                        good = False
+                        why.append("yields `%s`" % s[:100])
                 elif r.ret[0] == "call":
                     if "std::slice::Iter" not in r.ret[1] or "::next" not in r.ret[1]:
                         good = False
